@@ -1,6 +1,8 @@
 package main
 
 import (
+	"unsafe"
+	"reflect"
 	vsync "github.com/rminnich/go9p/vs/vsync"
 	"bytes"
 	"fmt"
@@ -540,6 +542,80 @@ func c09RecycleScenario(n int, poolForgets bool, kind string) Scenario {
 	}}
 }
 
+// c09BurstRecycle: bursts of more concurrent callers than the client caches request
+// slots for, many times over, with sync.Pool keeping or forgetting what is put back:
+// no tag is lost (after every burst each tag is either free in the client's pool or held
+// by a cached request slot), so the supply of 65 535 cannot run out.
+func c09BurstRecycle(burst, rounds int, poolForgets bool) Scenario {
+	name := fmt.Sprintf("recycle %d bursts of %d concurrent calls", rounds, burst)
+	if poolForgets {
+		name += " (every sync.Pool forgets what is put back)"
+	}
+	return Scenario{Name: name, Run: func(rc *RunCtx) *Result {
+		res := &Result{Exhaustive: true}
+		var bad string
+		tags := map[uint16]bool{}
+		body := func() {
+			vsync.PoolForgets = poolForgets
+			defer func() { vsync.PoolForgets = false }()
+			c, peer := newClientPair(8192, true)
+			total0 := 0
+			for r := 0; r < rounds; r++ {
+				results := make([]*callRes, burst)
+				peer.Batch = burst
+				peer.BatchOnce = true
+				for i := 0; i < burst; i++ {
+					i := i
+					vs.Go("caller", func() {
+						results[i] = doCall(c, callSpec{Kind: []string{"read", "stat", "write"}[i%3], Fid: uint32(1000 + i)})
+					})
+				}
+				vs.Idle()
+				for i, cr := range results {
+					if cr == nil || !cr.done {
+						bad = fmt.Sprintf("burst %d: call %d never returned", r, i)
+						return
+					}
+					if msg := cr.verify("ok", true, nil); msg != "" {
+						bad = fmt.Sprintf("burst %d call %d: %s", r, i, msg)
+						return
+					}
+				}
+				for _, m := range peer.Seen {
+					tags[m.Tag] = true
+				}
+				peer.Seen = peer.Seen[:0]
+				if peer.Dup != "" {
+					bad = peer.Dup
+					return
+				}
+				// tags are conserved: every one is either free in the client's pool or held by a cached request slot
+				if free, cached := clientTagAccounting(c); r == 0 {
+					total0 = free + cached
+				} else if free+cached != total0 {
+					bad = fmt.Sprintf("after %d bursts of %d concurrent calls %d tags are free and %d sit in cached request slots; after the first burst that was %d in all: %d tags have been lost, and the supply of 65535 will run out", r+1, burst, free, cached, total0, total0-free-cached)
+					return
+				}
+			}
+		}
+		x := vs.Run(nil, body, vs.Options{Horizon: 500000000})
+		vsync.PoolForgets = false
+		res.Evals = int64(rounds * burst)
+		res.Nontrivial = res.Evals
+		res.States = int64(len(tags))
+		res.Transitions = int64(x.Steps)
+		res.Traces = 1
+		if len(x.Panics) > 0 {
+			bad = "panic: " + x.Panics[0].Value
+		}
+		if bad != "" {
+			res.Findings = append(res.Findings, Finding{Sig: "C09/recycling/" + sigWords(bad), Msg: bad})
+		}
+		res.Samples = append(res.Samples, fmt.Sprintf("%d bursts of %d concurrent calls, %d distinct tags seen by the peer", rounds, burst, len(tags)))
+		return res
+	}}
+}
+
 // results handed to callers must stay theirs: hold the slices returned by many
 // reads (not copied) while later replies stream through the client's receive buffer
 func c09HeldScenario(msize uint32, n int, dotu bool) Scenario {
@@ -640,6 +716,7 @@ func c09Scenarios(tier string) []Scenario {
 		n = 70000
 	}
 	out = append(out, c09RecycleScenario(n, false, "ok"), c09RecycleScenario(n, true, "ok"), c09RecycleScenario(n, false, "error"), c09RecycleScenario(n, false, "wrongtype"))
+	out = append(out, c09BurstRecycle(40, 30, false), c09BurstRecycle(40, 30, true), c09BurstRecycle(17, 60, true))
 	out = append(out, c09HeldScenario(64, 60, false), c09HeldScenario(128, 80, true), c09HeldScenario(8192, 2200, true))
 	return out
 }
@@ -651,4 +728,21 @@ func init() {
 		Rule:      "k<=3 (thorough 5) caller goroutines with 1-2 calls each (read/stat/walk/write/clunk on distinct fids), the peer holding the first round until all are outstanding and answering in every permutation (k<=4; every 5th of the 120 for k=5), one frame per write or all in one, each reply matching/Rerror/wrong type; every schedule with at most P deviations from the deterministic default scheduler (delay bounding: every non-default scheduling choice counts, preemptive or not; select-case choices free) from the first call to the last return; pipelined Tag interface with 2-3 requests, and with 30, 40 and 100 (thorough 300) requests whose consumer starts late; one run of 3000 (thorough 70000) consecutive calls for tag and slot recycling. distinct = distinct per-object operation orders",
 		Assumptions: []string{"code between two synchronisation operations is atomic (race-free executions)", "callers use distinct fids so a reply identifies its request"},
 		Scenarios:   c09Scenarios, QuickS: 110, ThoroughS: 1500})
+}
+
+// clientTagAccounting looks into the client: tags free in its pool, and request slots
+// (each holding a tag) in its cache.
+func clientTagAccounting(c *go9p.Clnt) (free, cached int) {
+	v := reflect.ValueOf(c).Elem()
+	get := func(f reflect.Value) reflect.Value { return reflect.NewAt(f.Type(), unsafe.Pointer(f.UnsafeAddr())).Elem() }
+	tp := get(v.FieldByName("tagpool"))
+	if idf := tp.Elem().FieldByName("id"); idf.IsValid() {
+		if ch, ok := get(idf).Interface().(chan uint32); ok {
+			free = vs.Len(ch)
+		}
+	}
+	if rc, ok := get(v.FieldByName("reqchan")).Interface().(chan *go9p.Req); ok {
+		cached = vs.Len(rc)
+	}
+	return
 }
